@@ -41,16 +41,16 @@ def argsStructureOk : Bool :=
   argsExplicitStatErrIsNone && argsSearchStopsAtFirstHit && argsFilenameIsFound && argsEndsWithCheckAndReturn
     && argsCheckCall == ["filename", "commandargs", "st"] && argsGuards == ["args_g0", "args_g1", "args_g2"]
 
-/-- position (in the candidate list) and description of the file get_execv_args hands to check_execv_args:
-    the program itself when it contains a '/', otherwise the first candidate whose stat succeeds -/
+/-- position in the candidate list (`resolvedIdx`, for the driver's `ok:<index>`) and description (`resolved`) of the file
+    get_execv_args hands to check_execv_args: the program itself when it contains a '/', otherwise the first candidate whose
+    stat succeeds; when there is none, st = None and the file name is the bare program name -/
 def resolvedIdx (hasSlash : Bool) (files : List File) : Option Nat :=
   if args_g1 true hasSlash none then (if files.isEmpty then none else some 0)
   else files.findIdx? (fun f => !(args_g2 true hasSlash f.st))
 
 def resolved (hasSlash : Bool) (files : List File) : File :=
-  match resolvedIdx hasSlash files with
-  | some i => (files[i]?).getD nowhere
-  | none => nowhere
+  if args_g1 true hasSlash none then files.head?.getD nowhere
+  else (files.find? (fun f => !(args_g2 true hasSlash f.st))).getD nowhere
 
 /-- Subprocess.get_execv_args(): the exception class it raises; `none` when it returns (filename, argv) -/
 def execvRaises (cmd : Cmd) (files : List File) : Option String :=
